@@ -125,7 +125,9 @@ func (st *State) waitSatisfied(th *Thread) bool {
 		return x.IsConst() && x.C == 0
 	case waitQuiet:
 		for _, t := range st.threads {
-			if t != th && st.runnable(t) {
+			// another goroutine that itself waits for quiescence does not count as activity (and asking whether
+			// it is runnable would ask the same question about this one)
+			if t != th && !(t.status == thBlocked && t.wkind == waitQuiet) && st.runnable(t) {
 				return false
 			}
 		}
